@@ -21,8 +21,12 @@ import (
 	"sync"
 	"testing"
 
+	"cosmossdk.io/log"
 	sdkmath "cosmossdk.io/math"
 	abci "github.com/cometbft/cometbft/abci/types"
+	cmttypes "github.com/cometbft/cometbft/types"
+	sdkdb "github.com/cosmos/cosmos-db"
+	"github.com/cosmos/cosmos-sdk/client"
 	codectypes "github.com/cosmos/cosmos-sdk/codec/types"
 	sdk "github.com/cosmos/cosmos-sdk/types"
 	txtypes "github.com/cosmos/cosmos-sdk/types/tx"
@@ -32,6 +36,7 @@ import (
 	"github.com/ethereum/go-ethereum/common"
 	"pgregory.net/rapid"
 
+	"github.com/EscanBE/evermint/v12/indexer"
 	cpctypes "github.com/EscanBE/evermint/v12/x/cpc/types"
 	evmtypes "github.com/EscanBE/evermint/v12/x/evm/types"
 	feemarkettypes "github.com/EscanBE/evermint/v12/x/feemarket/types"
@@ -293,6 +298,7 @@ func runC20Tx(cs c20TxCase) *Outcome {
 		o.dev("", "first block failed: %v", err)
 		return o
 	}
+	var idx *indexer.KVIndexer
 	for bi, ins := range cs.Blocks {
 		pb := newPlanBuilder(c)
 		var txs [][]byte
@@ -331,6 +337,25 @@ func runC20Tx(cs c20TxCase) *Outcome {
 		if len(res.TxResults) != len(txs) {
 			o.dev("", "block %d: %d results for %d txs", bi, len(res.TxResults), len(txs))
 		}
+		// the committed block then reaches the node's EVM indexer service, a goroutine without recovery: whatever the
+		// proposer put into the block, indexing it must return
+		func() {
+			defer func() {
+				if r := recover(); r != nil {
+					o.dev("", "block %d: indexing the committed block panicked (the indexer service goroutine has no recovery, the node dies): %v", bi, truncS(fmt.Sprint(r), 300))
+				}
+			}()
+			if idx == nil {
+				cctx := client.Context{}.WithChainID(cs.World.CID()).WithTxConfig(c.TxCfg).WithCodec(c.App.AppCodec()).WithInterfaceRegistry(c.App.InterfaceRegistry())
+				idx = indexer.NewKVIndexer(sdkdb.NewMemDB(), log.NewNopLogger(), cctx)
+			}
+			blk := &cmttypes.Block{Header: cmttypes.Header{ChainID: cs.World.CID(), Height: c.Height, Time: c.Time}}
+			for _, tx := range txs {
+				blk.Data.Txs = append(blk.Data.Txs, cmttypes.Tx(tx))
+			}
+			_ = idx.IndexBlock(blk, res.TxResults)
+			o.label("indexed-user-block")
+		}()
 		if _, err := c.RunBlock(chain.Block{Dt: 1}); err != nil {
 			o.dev("", "block %d: the chain cannot produce the next block: %v", bi, err)
 			return o
